@@ -769,7 +769,13 @@ pub fn check(scn: &E2eScn, log: &[Ev], sim: &Sim, horizon_reached: bool) -> Vec<
         let (iseq, it) = idles[pos];
         for h in 0..n {
             if let Some(r) = reqs[h].get(&tag) {
-                if r.send_seq < iseq && r.cancel.is_none() {
+                // A cancel is owed on hop 0 by the abandonment itself; on a deeper hop only once
+                // the handler that issued the nested call has been dropped unfinished (it is not
+                // if no cancel reached it because the caller's deadline had already expired at
+                // the sender: its own deadline then ends it, C06).
+                let owed = h == 0
+                    || handlers.get(&(h as u8, tag)).and_then(|hd| hd.end).map(|(s, _, finished)| s < iseq && !finished).unwrap_or(false);
+                if owed && r.send_seq < iseq && r.cancel.is_none() {
                     let replied = r.resp_seen.map(|s| s < iseq).unwrap_or(false);
                     let expired = r.deadline <= it;
                     if !replied && !expired {
